@@ -209,8 +209,8 @@ def rand_object(rng, kind, layout, cto):
 
 
 class WideObjs(Objs):
-    """an object section over the whole object library; `unmodelled` = it has a header whose callbacks the Coq
-    conversion model (App/Convert.v) does not describe"""
+    """an object section over the whole object library; `unmodelled` = it has a header whose callbacks the composed
+    model (coq/Master/MFull.v) does not describe"""
     def __init__(self):
         Objs.__init__(self)
         self.cto = None
@@ -230,7 +230,7 @@ class WideObjs(Objs):
         return hdr, ("28" if wide else "17"), idx, (2 if wide else 1)
 
     def add_any(self, rng):
-        k = rng.below(16)
+        k = rng.below(17)
         n = rng.range(1, 3)
         if k <= 3:                                   # static fixed-size objects
             (g, v), (kind, layout) = rng.choice(sorted(STATIC_LAYOUT.items()))
@@ -305,7 +305,7 @@ class WideObjs(Objs):
             else:
                 self._add(bytes([rng.choice([1, 3, 10, 20, 21, 30, 31, 40]), 0, 0, 3, 5]), [])    # variation 0 with a range: no objects
             self.kinds.append("ignored")
-        elif k == 14:                                # analog dead-bands with a range: delivered, not in the conversion model
+        elif k == 14:                                # analog dead-bands with a range: delivered (not in the conversion model)
             v = rng.choice([1, 2, 3])
             hdr, q, start = self.range_header(rng, 34, v, n)
             body, items = b"", []
@@ -318,14 +318,24 @@ class WideObjs(Objs):
                     x = rng.choice(F32_POOL); body += struct.pack("<I", x); txt = "c%08x" % x
                 items.append("aidb/g34v%d/%s/e0f0/%d=%s" % (v, q, start + i, txt))
             self._add(hdr + body, items)
-            self.unmodelled = True
             self.kinds.append("g34")
-        else:                                        # unsigned integers g102v1: delivered, not in the conversion model
+        elif k == 15:                                # unsigned integers g102v1: delivered, not in the conversion model
             hdr, q, start = self.range_header(rng, 102, 1, n)
             vals = [rng.below(256) for _ in range(n)]
             self._add(hdr + bytes(vals), ["uint/g102v1/%s/e0f0/%d=%d" % (q, start + i, x) for i, x in enumerate(vals)])
-            self.unmodelled = True
             self.kinds.append("g102")
+        else:                                        # binary output command events g13: delivered; the composed model
+            v = rng.choice([1, 2])                   # does not describe them (`model-unmodelled`)
+            hdr, q, idx, w = self.prefix_header(rng, 13, v, n)
+            body, items = b"", []
+            for i in idx:
+                f = rng.choice([0x00, 0x80, 0x84, 0x7F, 0xFF, rng.below(256)])
+                t = rand_time(rng)
+                body += i.to_bytes(w, "little") + bytes([f]) + (t.to_bytes(6, "little") if v == 2 else b"")
+                items.append("boce/g13v%d/%s/e1f1/%d=%d,%d,%s" % (v, q, i, f >> 7, f & 0x7F, ("s%d" % t) if v == 2 else "n"))
+            self._add(hdr + body, items)
+            self.unmodelled = True
+            self.kinds.append("g13")
 
     def add_cto(self, rng):
         v = rng.choice([1, 2])
@@ -667,8 +677,8 @@ class MasterProp(Prop):
     def extra_model_script(self, case, impl):
         """the script for engine `mfull`, or None when there is nothing to compare: another engine, an
         implementation-only script, or the implementation panicked / the harness died (reported by the oracle).
-        Fragments with objects whose callbacks the conversion model does not describe (g0, g34 ranges, g102, g13,
-        g43) are recognised by the model itself: it prints `model-unmodelled` (see extra_canon)."""
+        Fragments with objects whose callbacks the composed model does not describe (g0, g13, g43) are
+        recognised by the model itself: it prints `model-unmodelled` (see extra_canon)."""
         self._mfull_skips = getattr(self, "_mfull_skips", {})
         lines = [l for l in case.script.split("\n") if l.strip()]
         head = lines[0].split()
@@ -688,7 +698,7 @@ class MasterProp(Prop):
         """both sides verbatim; None = the model declared the script outside its domain"""
         if side == "model" and any(l.strip() == "model-unmodelled" for l in lines):
             self._mfull_skips = getattr(self, "_mfull_skips", {})
-            k = "objects outside the conversion model (model-unmodelled)"
+            k = "objects outside the composed model: g0 / g13 / g43 (model-unmodelled)"
             self._mfull_skips[k] = self._mfull_skips.get(k, 0) + 1
             return None
         return list(lines)
